@@ -319,6 +319,9 @@ H("pq.VerifQueueFault", "a flush / ACK whose transaction fails (injected write/s
            "page bytes, EndOff, FirstOff/FirstID/LastID, Avail accounting, header never split, flush range = pages with unflushed committed bytes",
            "64-byte pages, 8 boundary event sizes, symbolic bytes/header/first id, 1-2 Append chunks; 2 events, simulated flush + Reset, optional re-creation of the buffer from the flushed tail page image (NewPageWith/newBuffer(tail)), 1 event (thorough: 2+2)",
            quick={"params": {"events": 2, "events2": 1}}, thorough={"params": {"events": 2, "events2": 2}, "max_paths": 200000, "budget": "900s"}),
+         H("pq.VerifPqBuffer", "same lemma with a longer first phase (three events before the simulated flush)",
+           "3 events, flush + Reset / tail re-creation (thorough: 1 further event)",
+           quick={"params": {"events": 3, "events2": 0}}, thorough={"params": {"events": 3, "events2": 1}, "max_paths": 300000, "budget": "900s"}),
      ])
 
 prop("C06", bounds=PQ_BOUNDS + "; crash at every index of the I/O log of a flush (1-2 events) / ACK(1) / ACK(2) after a committed prefix of 2 events, loss patterns all kept / all lost / one lost / one kept",
